@@ -1,5 +1,7 @@
 (* C13 -- Registering a tracepoint in code returns a handle that removes exactly it. *)
 From Deep Require Import Base ConfigSvc ConfigSvcProofs.
+From DeepGen Require Import PService.
+From Deep Require Import PureSupport TieService.
 
 Theorem C13_invariant_reachable : forall ops, HInv (run true svc0 ops).
 Proof. exact hinv_reachable. Qed.
@@ -39,3 +41,17 @@ Print Assumptions C13_active_alongside.
 Theorem C13_location_handle_refuted : map snd (custom loc_handle_witness) = [2%nat].
 Proof. exact location_handle_refuted. Qed.
 Print Assumptions C13_location_handle_refuted.
+
+(* ---- tie by translation: TracepointConfigService.add_custom / remove_custom as they are in /repo/src NOW (gen/PService.v is
+   regenerated on every run) are the Register / RegisterRefused / Unregister steps of the model; the handle returned is the
+   fresh token, and a refused registration leaves every list as it was *)
+Theorem C13_the_code_registrations_are_the_model :
+  forall s tp h,
+  gen_add_custom (polled s) (hash s) (last_update s) (map fst (custom s)) (map snd (custom s)) (pending s) (next_handle s) (Some tp) =
+    (let s' := step true s (Register tp) in ((map fst (custom s'), map snd (custom s'), pending s'), Some (next_handle s))) /\
+  gen_add_custom (polled s) (hash s) (last_update s) (map fst (custom s)) (map snd (custom s)) (pending s) (next_handle s) None =
+    ((map fst (custom s), map snd (custom s), pending s), None) /\
+  gen_remove_custom (polled s) (hash s) (last_update s) (map fst (custom s)) (map snd (custom s)) (pending s) h =
+    (let s' := step true s (Unregister h) in (map fst (custom s'), map snd (custom s'), pending s')).
+Proof. intros. split; [apply tie_add_custom|]. split; [apply tie_add_custom_refused | apply tie_remove_custom]. Qed.
+Print Assumptions C13_the_code_registrations_are_the_model.
